@@ -1,6 +1,6 @@
 #!/bin/bash
 # Builds the whole harness offline from files on disk (path dependencies on /repo):
-# the main workspace (serial builds of every property binary) and the separate `parallel` workspace used by C14.
+# the main workspace (serial builds of every property binary) the separate `parallel` workspace used by C14 and the `asm` workspace used by C01 / C15.
 # libFuzzer targets (harness/fuzz) are built on demand by the thorough tier.
 set -eu
 ROOT="$(cd "$(dirname "$0")" && pwd)"
@@ -8,4 +8,7 @@ export CARGO_NET_OFFLINE=true
 cd "$ROOT/harness"
 cargo build --release --workspace 2>&1 | tail -n 3
 cd "$ROOT/harness/par"
+cargo build --release 2>&1 | tail -n 3
+# `asm` build variant of C01 / C15 (tools/asm_stage.sh)
+cd "$ROOT/harness/asm"
 cargo build --release 2>&1 | tail -n 3
